@@ -36,25 +36,35 @@ RDB_TOTAL_KANI = [
     _kx('rdb_read_length_total', 'rdb_codec'),
 ]
 
+def _sg(group):
+    # secondary shard groups re-verify the shared value.rs units; count them once (in shard_core)
+    return {'group': group, 'exclude_units': SHARD_VALUE_UNITS}
+
+SETRANGE_KANI = [
+    _kx('setrange_new_bounded', 'setrange', bounded='offset <= 6, value <= 3 symbolic bytes'),
+    _kx('setrange_existing_bounded', 'setrange', bounded='existing string <= 4, offset <= 6, value <= 3 symbolic bytes', timeout=900),
+]
+
 PROPS = {
     'C01': {
         'level': 'proof',
-        'verus': [{'group': 'shard_core'}],
+        'verus': [{'group': 'shard_core'}, _sg('shard_strings'), {'group': 'shard_sweeper', 'units': ['rename_same_shard', 'rename_cross_shard']}],
+        'kani': SETRANGE_KANI,
         'explanation': 'kernel-scoped: storage-engine string/key functions proved against Redis-semantics spec functions on one shard; handlers/dispatch are unverified surroundings',
     },
     'C02': {
         'level': 'proof',
-        'verus': [{'group': 'shard_core'}],
+        'verus': [{'group': 'shard_core'}, _sg('shard_strings'), _sg('shard_lists'), _sg('shard_sweeper'), _sg('shard_sets'), _sg('shard_hashes'), _sg('shard_zsets')],
         'explanation': 'deadline-index invariant index_ok preserved by every shard operation under contract; lazy expiry of get/exists/set_nx; ttl arithmetic',
     },
     'C03': {
         'level': 'proof',
-        'verus': [{'group': 'c03_lists_arith'}],
+        'verus': [{'group': 'c03_lists_arith'}, _sg('shard_lists'), _sg('shard_sets'), _sg('shard_hashes')],
         'explanation': 'index arithmetic of list commands against spec_range',
     },
     'C04': {
         'level': 'proof',
-        'verus': [{'group': 'c04_zset_arith'}],
+        'verus': [{'group': 'c04_zset_arith'}, {'group': 'shard_zsets', 'units': ['zadd', 'zincrby', 'zrem']}],
         'explanation': 'rank-range arithmetic of ZRANGE/ZREVRANGE/ZRANK against spec_zrange with the skip list behind an assumed contract',
     },
     'C06': {
@@ -62,7 +72,7 @@ PROPS = {
         # C06 = the safety obligations (overflow, bounds, slice ranges, unwrap, preconditions of callees such as the
         # allocation budget) of EVERY unit under contract, for all argument values
         'verus': [{'group': g, 'kinds': ['safety', 'requires-at-call', 'decreases', 'invariant']} for g in
-                  ['shard_core', 'c03_lists_arith', 'c04_zset_arith', 'c19_scan', 'c20_parser', 'c09_rdb', 'c13_blocking', 'c07_transactions']],
+                  ['shard_core', 'shard_strings', 'shard_lists', 'shard_sweeper', 'shard_sets', 'shard_hashes', 'shard_zsets', 'c03_lists_arith', 'c04_zset_arith', 'c19_scan', 'c20_parser', 'c09_rdb', 'c13_blocking', 'c07_transactions']],
         'kani': STREAM_KANI[:1] + RDB_TOTAL_KANI,
         'explanation': 'function by function: every unit under contract is proved free of index/slice errors, arithmetic overflow, failing unwraps and unbounded reservations for ALL argument values; the claim is "no panic in these functions", not "no panic in the server"',
     },
@@ -77,18 +87,20 @@ PROPS = {
     },
     'C08': {
         'level': 'proof',
-        'verus': [{'group': 'shard_core'}],
+        'verus': [{'group': 'shard_core'}, _sg('shard_strings'), _sg('shard_lists'), _sg('shard_sweeper'), _sg('shard_sets'), _sg('shard_hashes'), _sg('shard_zsets')],
         'explanation': 'every shard mutator under contract marks the key it changes and no other (step_ok)',
     },
     'C09': {
         'level': 'proof',
-        'verus': [{'group': 'c09_rdb'}],
+        # the loader re-inserts through set_value/expire with the TTL computed by rdb_load_ttl: the deadline those install is part of the round trip
+        'verus': [{'group': 'c09_rdb'}, {'group': 'shard_core', 'units': ['vm_with_expiration', 'vm_set_expiration', 'vm_is_expired', 'sv_with_expiration', 'sv_is_expired', 'set_value', 'expire']}],
         'kani': RDB_KANI,
         'explanation': 'codec level: length / fixed-width field encoders and decoders are inverse for every value (Kani, complete); expiry-on-load computation proved (Verus). Value-level round trip is not under contract',
     },
     'C10': {
         'level': 'proof',
-        'kani': RDB_TOTAL_KANI,
+        # "loadable": what the writer's length/fixed-width encoders emit must be what the reader decodes
+        'kani': RDB_TOTAL_KANI + RDB_KANI,
         'explanation': 'corrupted-input clause only: read_length is total on arbitrary bytes (no panic, no read past the data, short read = error). Crash points and save/command interleavings are not decidable by function contracts here',
     },
     'C11': {
@@ -105,6 +117,7 @@ PROPS = {
     },
     'C15': {
         'level': 'proof',
+        'verus': [{'group': 'shard_zsets', 'units': ['xdel', 'xtrim']}],
         'kani': STREAM_KANI,
         'explanation': 'ID generation (complete Kani proof over full u64 domains), ID packing/order (complete); explicit-ID admission and XREAD range_after (bounded stand-ins, not counted)',
     },
